@@ -119,6 +119,9 @@ pub trait Prop: Sync {
     }
 }
 
+/// wall-clock bound on the minimisation of one failure (both phases together)
+pub const SHRINK_WALL: std::time::Duration = std::time::Duration::from_secs(150);
+
 pub fn journal_path(property: &str, check: &str, lane: usize) -> std::path::PathBuf {
     verif_dir()
         .join("target")
@@ -282,6 +285,7 @@ pub fn structural_minimise<P: Prop>(
     mut msg: String,
     lane: usize,
     known: &Known,
+    started: Option<std::time::Instant>,
 ) -> (P::Case, String) {
     let mut budget = p.minimise_budget();
     let mut scratch = Stats::default();
@@ -294,7 +298,7 @@ pub fn structural_minimise<P: Prop>(
     };
     'outer: loop {
         for cand in p.simplify(&case) {
-            if budget == 0 {
+            if budget == 0 || started.map(|t| t.elapsed() > SHRINK_WALL).unwrap_or(false) {
                 break 'outer;
             }
             budget -= 1;
@@ -338,11 +342,19 @@ pub fn drive<P: Prop>(p: &P, cases: usize, lanes: usize, seed: u64, known: &Know
                 };
                 let mut runner = TestRunner::new(cfg);
                 let strat = pvec(any::<u16>(), 0..=p.stream_len());
+                let shrink_started: std::cell::Cell<Option<std::time::Instant>> = std::cell::Cell::new(None);
                 let res = {
                     let stats_cell = std::cell::RefCell::new(&mut stats);
                     let herr = std::cell::RefCell::new(&mut harness_err);
                     runner.run(&strat, |stream| {
                         if stop.load(SeqCst) && !failed.get() {
+                            return Ok(());
+                        }
+                        // minimisation is bounded in wall-clock time too (cases that wait for deadlines
+                        // on broken code are slow): past the bound every candidate counts as passing,
+                        // which ends the shrink with the smallest failing case found so far. The verdict
+                        // was reached before and does not depend on this.
+                        if failed.get() && shrink_started.get().map(|t| t.elapsed() > SHRINK_WALL).unwrap_or(false) {
                             return Ok(());
                         }
                         if herr.borrow().is_some() {
@@ -395,6 +407,9 @@ pub fn drive<P: Prop>(p: &P, cases: usize, lanes: usize, seed: u64, known: &Know
                                             let _ = std::fs::write(path, json!({"message": f.msg, "case": &case}).to_string());
                                         }
                                     }
+                                    if !failed.get() {
+                                        shrink_started.set(Some(std::time::Instant::now()));
+                                    }
                                     failed.set(true);
                                     stop.store(true, SeqCst);
                                     Err(TestCaseError::fail(f.msg))
@@ -410,7 +425,7 @@ pub fn drive<P: Prop>(p: &P, cases: usize, lanes: usize, seed: u64, known: &Know
                         let mut src = Src::new(&stream);
                         let mut case = p.gen(&mut src);
                         let mut msg = reason.to_string();
-                        let (c2, m2) = structural_minimise(p, case, msg, lane, known);
+                        let (c2, m2) = structural_minimise(p, case, msg, lane, known, shrink_started.get());
                         case = c2;
                         msg = m2;
                         let mut scratch = Stats::default();
@@ -578,7 +593,7 @@ impl<P: Prop> DynProp for P {
         let known = Known::load_cached();
         let mut st = Stats::default();
         let (case, msg) = match guarded_check(self, &case, 0, &mut st) {
-            Ok(Err(f)) => structural_minimise(self, case, f.msg, 0, known),
+            Ok(Err(f)) => structural_minimise(self, case, f.msg, 0, known, Some(std::time::Instant::now())),
             _ => (case, "found by the coverage-guided fuzzer".to_string()),
         };
         json!({"property": self.property(), "check": self.name(), "message": msg, "case": case})
